@@ -7,6 +7,7 @@ CONSTANTS N = 3
  CascadeTime = "shared"
  OutputsAt = "end"
  Protect = "asis"
+ VarsAt = "whole"
 INVARIANT CoversUse
 INVARIANT FuseSafe
 CHECK_DEADLOCK FALSE
